@@ -358,6 +358,25 @@ theorem closest_midpoint_rule (a b t : Rat) (h1 : a ≤ t) (h2 : t ≤ b) :
 example : locateClosest [0, 1, 4] 2 = .ok 1 ∧ locateClosest [0, 1, 4] (5/2) = .ok 2 ∧
     locateClosest [0, 1, 4] 3 = .ok 2 := by decide +kernel
 
+/-- Comparison by distance is the property clause: for a non-empty sorted list, an index `k` is
+    "an index of an element nearest to the target" (`∀ j, |l[k]−t| ≤ |l[j]−t|`) **iff** its exact
+    distance equals the distance of the model's index.  Which of several minimisers is returned
+    (duplicates of the nearest value, or an exact tie between two different neighbours) is left free by
+    the property, so the comparator compares `|l[idx] − t|`, not `idx`. -/
+theorem locateClosest_any_minimiser (l : List Rat) (t : Rat) (hne : l ≠ []) (hs : isSorted l = true) :
+    ∃ (i : Nat) (hi : i < l.length), locateClosest l t = .ok i ∧
+      ∀ (k : Nat) (hk : k < l.length),
+        (∀ (j : Nat) (hj : j < l.length), |l[k] - t| ≤ |l[j] - t|) ↔ |l[k] - t| = |l[i] - t| := by
+  obtain ⟨i, hi, hok, hmin⟩ := locateClosest_nearest l t hne hs
+  refine ⟨i, hi, hok, fun k hk => ⟨fun h => le_antisymm (h i hi) (hmin k hk), fun h j hj => ?_⟩⟩
+  rw [h]; exact hmin j hj
+
+-- duplicates of the nearest value: the model returns the last of them, index 0 is as near
+example : locateClosest [1, 1, 1, 2] (6/5) = .ok 2 ∧ |([1, 1, 1, 2] : List Rat)[0] - 6/5| = |([1, 1, 1, 2] : List Rat)[2] - 6/5| := by
+  constructor
+  · decide +kernel
+  · norm_num
+
 /-! ## 5. List templates -/
 
 section Lists
